@@ -5,13 +5,15 @@ use essential_asm::{self as asm, short::*, Op};
 use essential_check::solution::{self as chk, CheckPredicateConfig, MutationsError, PredicateError, PredicatesError, RunMode};
 use essential_types::{predicate::{Node, Predicate, Program}, solution::{Mutation, Solution, SolutionSet}, ContentAddress, Key, PredicateAddress, Word};
 use essential_vm::StateRead;
+#[allow(unused_imports)]
+use essential_vm::StateRead as _;
 use serde_json::json;
 use std::collections::{BTreeMap, HashMap};
 use std::panic::{catch_unwind, AssertUnwindSafe};
 use std::sync::Arc;
 
 /// The in-memory state the model's `state_view` describes: a range is answered by walking successor keys,
-/// at most 4096 of them; absent keys have the empty value.
+/// at most 10241 of them; absent keys have the empty value.
 #[derive(Clone, Default)]
 pub struct MemState(pub Arc<BTreeMap<ContentAddress, BTreeMap<Key, Vec<Word>>>>);
 pub fn next_key(mut key: Key) -> Option<Key> {
@@ -26,7 +28,7 @@ impl StateRead for MemState {
     fn key_range(&self, c: ContentAddress, mut key: Key, n: usize) -> Result<Vec<Vec<Word>>, String> {
         let m = self.0.get(&c);
         let mut out = vec![];
-        for _ in 0..n.min(4096) {
+        for _ in 0..n.min(10241) {
             out.push(m.and_then(|m| m.get(&key)).cloned().unwrap_or_default());
             match next_key(key) { Some(k) => key = k, None => break }
         }
@@ -396,4 +398,51 @@ pub fn run_sched(a: &Args) {
         id += 1;
     }
     out.write(&a.out, a.shards, "sched");
+}
+
+/// Engine `post`: read_or_fallback and next_key through the verification hook (C03).
+pub fn run_post(a: &Args) {
+    let mut out = Out::new("From EB Require Import Corr.RunGraph.", "post_case", &["post_mismatches", "post_spec_failures"]);
+    out.only = a.only;
+    let contracts: Vec<ContentAddress> = (0..3).map(|i| ContentAddress([0x20 + i as u8; 32])).collect();
+    let words: [Word; 9] = [i64::MIN, -1, 0, 1, 2, 5, i64::MAX - 1, i64::MAX, 7];
+    for i in 0..a.count as u64 {
+        let mut rng = Rng::for_case(a.seed, 3, i);
+        let n: usize = match rng.below(8) { 0 => 0, 1 => 1, 2 => usize::MAX >> 1, 3 => 5000, _ => rng.range(2, 8) as usize };
+        let klen = if n > 100 { *rng.pick(&[1usize, 2, 3]) } else { *rng.pick(&[0usize, 1, 1, 1, 2, 2, 3]) };
+        let mk_key = |rng: &mut Rng| -> Key { (0..klen).map(|_| *rng.pick(&words)).collect() };
+        // a huge count is only interesting (and only terminates quickly) near the maximal key, where the range is cut short
+        let base: Key = if n > 100 { let mut k = vec![i64::MAX; klen]; k[klen - 1] = i64::MAX - rng.range(0, 4); k } else { mk_key(&mut rng) };
+        // keys in the neighbourhood of `base`, so that ranges straddle mutated, deleted and untouched keys and word carries
+        let mut near: Vec<Key> = vec![base.clone()];
+        let mut k = base.clone();
+        for _ in 0..6 { match next_key(k.clone()) { Some(n) => { near.push(n.clone()); k = n; } None => break } }
+        let mut state: BTreeMap<ContentAddress, BTreeMap<Key, Vec<Word>>> = BTreeMap::new();
+        let mut entries: Vec<(ContentAddress, Key, Vec<Word>)> = vec![];
+        for c in &contracts {
+            for kk in &near {
+                if rng.chance(1, 2) { state.entry(c.clone()).or_default().insert(kk.clone(), (0..rng.range(1, 3)).map(|_| rng.range(100, 199)).collect()); }
+                if rng.chance(1, 3) && *c != contracts[2] { entries.push((c.clone(), kk.clone(), if rng.chance(1, 4) { vec![] } else { vec![rng.range(1, 99)] })); }
+            }
+        }
+        if rng.chance(1, 4) { if let Some(e) = entries.first().cloned() { entries.push((e.0, e.1, vec![rng.range(200, 299)])); } }
+        let c = rng.pick(&contracts).clone();
+        let st = MemState(Arc::new(state.clone()));
+        let res = chk::verif::read_post(&entries, &st, c.clone(), base.clone(), n).unwrap();
+        let pre_res = st.key_range(c.clone(), base.clone(), n).unwrap();
+        let mut samples: Vec<Key> = near.clone();
+        samples.push(vec![]); samples.push(vec![i64::MAX]); samples.push(vec![i64::MAX, i64::MAX]); samples.push(vec![-1, i64::MAX]); samples.push(mk_key(&mut rng));
+        let succ: Vec<(Key, Option<Key>)> = samples.into_iter().map(|kk| { let r = chk::verif::successor(kk.clone()); (kk, r) }).collect();
+        let state_lit = list_of(&state.iter().collect::<Vec<_>>(), |(ca, m)| format!("({}, {})", blist(&ca.0),
+            list_of(&m.iter().collect::<Vec<_>>(), |(k, v)| format!("({}, {})", zlist(k.iter().copied()), zlist(v.iter().copied())))));
+        // a huge count on a contract with proposals would make the Rust loop run that many times: keep those on the pass-through path
+        let lit = format!("Build_post_case {} {} {} {} {} {} {} {}",
+            list_of(&entries, |e| format!("({}, {}, {})", blist(&e.0 .0), zlist(e.1.iter().copied()), zlist(e.2.iter().copied()))),
+            state_lit, blist(&c.0), zlist(base.iter().copied()), n.min(i64::MAX as usize),
+            list_of(&res, |v| zlist(v.iter().copied())), list_of(&pre_res, |v| zlist(v.iter().copied())),
+            list_of(&succ, |e| format!("({}, {})", zlist(e.0.iter().copied()), match &e.1 { Some(k) => format!("(Some {})", zlist(k.iter().copied())), None => "None".into() })));
+        out.push(i, lit, json!({"key": base, "n": n.min(1 << 40), "entries": entries.len(), "values": res.len()}), res.len() >= 2);
+        out.bump(if entries.iter().any(|e| e.0 == c) { "contract_has_proposals" } else { "pass_through" });
+    }
+    out.write(&a.out, a.shards, "post");
 }
